@@ -12,10 +12,18 @@
                            whose literal denotes another value.
   * `time_termEquals`      TermEquals ⟺ literal of the same datatype whose text is the lexical form written
                            by AsObjectValue.
-  * NOT proved (T3 + oracle only): `time_canonical_full` (the written form is a lexical form that maps
-    back to the same fields). Stated below as a `def`.
+  * `time_format_parse`    parse ∘ format: for every layout in use and every value with in-range fields, the text
+                           Format writes is read back by the same layout as `norm layout v` (only the printed
+                           fields survive; "no zone" under a zone element comes back as UTC), no lax branch used.
+  * `time_canonical_partial` the literal written for a mapped value is in the lexical space of T, maps again,
+                           and the value it gives writes the same literal; excluded exactly: `tzWide` and values
+                           whose Layout has a ".000000000" element (class time-fraction-signed). Equality of
+                           VALUES (fields) is not claimed — hence `_partial`.
+  * NOT proved (defs below; T3 + oracle only): `time_canonical_full` (same fields after re-mapping),
+    `time_complete_canonical` (completeness on canonical forms within the year range).
 -/
 import RdfModel.Proofs.C20Time
+import RdfModel.Proofs.C20TimeRT
 import RdfModel.Proofs.C20Collapse
 import RdfModel.Props.C20Defs
 import RdfModel.Gen.XsdFacts
@@ -24,6 +32,7 @@ open RdfModel RdfModel.GoTime
 open RdfModel.Xsd (Tok Bytes layoutToks TimeTy TimeFact TermArg NumErr)
 open RdfModel.Spec.Xsd (accepts lexOK normalize)
 open RdfModel.C20 (dtIRI)
+open RdfModel.Proofs.C20Time (Fields ZoneOK Tail PreOK LitOK)
 
 /-! ### facts (T2) -/
 
@@ -263,17 +272,302 @@ theorem time_termEquals (T : TimeTy) (f : TimeFact) (hf : timeFactOK T f = true)
 example : termEquals (Gen.xsdFacts.time .gYear) { t := { year := 2000 }, layout := asc "2006" }
     (.literal (dtIRI .gYear) (asc "2000")) = some true := by decide
 
+section
+open RdfModel.Proofs.C20Time
+
+/-! ### canonicalisation: the written text is a lexical form and is stable -/
+
+/-- the layout has no ".000000000" element (all values except those read through class
+    time-fraction-signed; see `dev_fraction_signed`) -/
+def noFrac (l : Bytes) : Bool := !(layoutToks l).any (fun t => match t with | .frac0 _ _ => true | _ => false)
+
+def litOKb : Tok → Bool
+  | .lit b => decide (33 ≤ b)
+  | .frac0 _ sep => decide (33 ≤ sep)
+  | _ => true
+
+theorem litOK_of_b {tok : Tok} (h : litOKb tok = true) : LitOK tok := by
+  cases tok <;> simp_all [litOKb, LitOK]
+
+theorem lits_ok (T : TimeTy) : (expLayouts T).all (fun l => (layoutToks l).all litOKb) = true := by
+  cases T <;> decide
+
+theorem no_unknown (T : TimeTy) : (expLayouts T).any (fun l => (layoutToks l).contains .unknown) = false := by
+  cases T <;> decide
+
+theorem lexTime_noWs (T : TimeTy) {l : Bytes} (hl : l ∈ expLayouts T) (t : PT) : C20.NoWs (timeFormat l t) := by
+  have := lits_ok T
+  rw [List.all_eq_true] at this
+  have h2 := this l hl
+  rw [List.all_eq_true] at h2
+  exact formatWith_noWs _ _ (fun tok ht => litOK_of_b (h2 tok ht))
+
+/-- Map<T> on a string without white space is the first layout that parses it -/
+theorem mapTime_of_first {T : TimeTy} {f : TimeFact} (hf : timeFactOK T f = true) {w : Bytes} (hw : C20.NoWs w)
+    {r : TVal × Notes} (h : firstParse (expLayouts T) w = some r) : mapTime f w = .ok r := by
+  simp only [timeFactOK, Bool.and_eq_true, beq_iff_eq] at hf
+  obtain ⟨⟨⟨hcol, hlay⟩, _⟩, _⟩ := hf
+  simp only [mapTime, hcol, Xsd.argOf, if_true, Proofs.C20.collapse_spec, Proofs.C20.collapse_noWs w hw, hlay, no_unknown,
+    Bool.false_eq_true, if_false, h]
+
+/-- per type: every layout is the type's prefix followed by a tail, possibly with a fraction element -/
+theorem canon_core (T : TimeTy) {l : Bytes} (hl : l ∈ expLayouts T) (hnf : noFrac l = true) {st : PS}
+    (hF : Fields st.t) (hz : ZoneOK true st.t.zone) :
+    ∃ v' n', firstParse (expLayouts T) (timeFormat l st.t) = some (v', n') ∧ lexTime v' = timeFormat l st.t ∧ n'.clean = true := by
+  cases T <;> simp only [expLayouts, List.mem_cons, List.not_mem_nil, or_false] at hl
+  · -- date
+    have hls : ∀ l' ∈ expLayouts .date, ∃ tl' : Tail, layoutToks l' = preD ++ tl'.toks ∨ layoutToks l' = preD ++ (.frac0 9 0x2E :: tl'.toks) := by
+      intro l' hl'; simp only [expLayouts, List.mem_cons, List.not_mem_nil, or_false] at hl'
+      rcases hl' with rfl | rfl
+      · exact ⟨.none, Or.inl tk_d1⟩
+      · exact ⟨.tz, Or.inl tk_d2⟩
+    rcases hl with rfl | rfl
+    · exact canon_of hls (preOK_D hF) hz (tl := .none) (by simp [expLayouts]) tk_d1
+    · exact canon_of hls (preOK_D hF) hz (tl := .tz) (by simp [expLayouts]) tk_d2
+  · -- dateTime
+    have hls : ∀ l' ∈ expLayouts .dateTime, ∃ tl' : Tail, layoutToks l' = preDT ++ tl'.toks ∨ layoutToks l' = preDT ++ (.frac0 9 0x2E :: tl'.toks) := by
+      intro l' hl'; simp only [expLayouts, List.mem_cons, List.not_mem_nil, or_false] at hl'
+      rcases hl' with rfl | rfl | rfl | rfl
+      · exact ⟨.none, Or.inl tk_dt1⟩
+      · exact ⟨.tz, Or.inl tk_dt2⟩
+      · exact ⟨.none, Or.inr tk_dt3⟩
+      · exact ⟨.tz, Or.inr tk_dt4⟩
+    rcases hl with rfl | rfl | rfl | rfl
+    · exact canon_of hls (preOK_DT hF) hz (tl := .none) (by simp [expLayouts]) tk_dt1
+    · exact canon_of hls (preOK_DT hF) hz (tl := .tz) (by simp [expLayouts]) tk_dt2
+    · exact absurd hnf (by decide)
+    · exact absurd hnf (by decide)
+  · -- dateTimeStamp
+    have hls : ∀ l' ∈ expLayouts .dateTimeStamp, ∃ tl' : Tail, layoutToks l' = preDT ++ tl'.toks ∨ layoutToks l' = preDT ++ (.frac0 9 0x2E :: tl'.toks) := by
+      intro l' hl'; simp only [expLayouts, List.mem_cons, List.not_mem_nil, or_false] at hl'
+      rcases hl' with rfl | rfl
+      · exact ⟨.tz, Or.inl tk_dt2⟩
+      · exact ⟨.tz, Or.inr tk_dt4⟩
+    rcases hl with rfl | rfl
+    · exact canon_of hls (preOK_DT hF) hz (tl := .tz) (by simp [expLayouts]) tk_dt2
+    · exact absurd hnf (by decide)
+  · -- gDay
+    have hls : ∀ l' ∈ expLayouts .gDay, ∃ tl' : Tail, layoutToks l' = preGD ++ tl'.toks ∨ layoutToks l' = preGD ++ (.frac0 9 0x2E :: tl'.toks) := by
+      intro l' hl'; simp only [expLayouts, List.mem_cons, List.not_mem_nil, or_false] at hl'
+      rcases hl' with rfl | rfl
+      · exact ⟨.none, Or.inl tk_gd1⟩
+      · exact ⟨.tz, Or.inl tk_gd2⟩
+    rcases hl with rfl | rfl
+    · exact canon_of hls (preOK_GD hF) hz (tl := .none) (by simp [expLayouts]) tk_gd1
+    · exact canon_of hls (preOK_GD hF) hz (tl := .tz) (by simp [expLayouts]) tk_gd2
+  · -- gMonth
+    have hls : ∀ l' ∈ expLayouts .gMonth, ∃ tl' : Tail, layoutToks l' = preGM ++ tl'.toks ∨ layoutToks l' = preGM ++ (.frac0 9 0x2E :: tl'.toks) := by
+      intro l' hl'; simp only [expLayouts, List.mem_cons, List.not_mem_nil, or_false] at hl'
+      rcases hl' with rfl | rfl
+      · exact ⟨.none, Or.inl tk_gm1⟩
+      · exact ⟨.tz, Or.inl tk_gm2⟩
+    rcases hl with rfl | rfl
+    · exact canon_of hls (preOK_GM hF) hz (tl := .none) (by simp [expLayouts]) tk_gm1
+    · exact canon_of hls (preOK_GM hF) hz (tl := .tz) (by simp [expLayouts]) tk_gm2
+  · -- gMonthDay
+    have hls : ∀ l' ∈ expLayouts .gMonthDay, ∃ tl' : Tail, layoutToks l' = preGMD ++ tl'.toks ∨ layoutToks l' = preGMD ++ (.frac0 9 0x2E :: tl'.toks) := by
+      intro l' hl'; simp only [expLayouts, List.mem_cons, List.not_mem_nil, or_false] at hl'
+      rcases hl' with rfl | rfl
+      · exact ⟨.none, Or.inl tk_gmd1⟩
+      · exact ⟨.tz, Or.inl tk_gmd2⟩
+    rcases hl with rfl | rfl
+    · exact canon_of hls (preOK_GMD hF) hz (tl := .none) (by simp [expLayouts]) tk_gmd1
+    · exact canon_of hls (preOK_GMD hF) hz (tl := .tz) (by simp [expLayouts]) tk_gmd2
+  · -- gYear
+    have hls : ∀ l' ∈ expLayouts .gYear, ∃ tl' : Tail, layoutToks l' = preGY ++ tl'.toks ∨ layoutToks l' = preGY ++ (.frac0 9 0x2E :: tl'.toks) := by
+      intro l' hl'; simp only [expLayouts, List.mem_cons, List.not_mem_nil, or_false] at hl'
+      rcases hl' with rfl | rfl
+      · exact ⟨.none, Or.inl tk_gy1⟩
+      · exact ⟨.tz, Or.inl tk_gy2⟩
+    rcases hl with rfl | rfl
+    · exact canon_of hls (preOK_GY hF) hz (tl := .none) (by simp [expLayouts]) tk_gy1
+    · exact canon_of hls (preOK_GY hF) hz (tl := .tz) (by simp [expLayouts]) tk_gy2
+  · -- gYearMonth
+    have hls : ∀ l' ∈ expLayouts .gYearMonth, ∃ tl' : Tail, layoutToks l' = preGYM ++ tl'.toks ∨ layoutToks l' = preGYM ++ (.frac0 9 0x2E :: tl'.toks) := by
+      intro l' hl'; simp only [expLayouts, List.mem_cons, List.not_mem_nil, or_false] at hl'
+      rcases hl' with rfl | rfl
+      · exact ⟨.none, Or.inl tk_gym1⟩
+      · exact ⟨.tz, Or.inl tk_gym2⟩
+    rcases hl with rfl | rfl
+    · exact canon_of hls (preOK_GYM hF) hz (tl := .none) (by simp [expLayouts]) tk_gym1
+    · exact canon_of hls (preOK_GYM hF) hz (tl := .tz) (by simp [expLayouts]) tk_gym2
+  · -- time
+    have hls : ∀ l' ∈ expLayouts .time, ∃ tl' : Tail, layoutToks l' = preC ++ tl'.toks ∨ layoutToks l' = preC ++ (.frac0 9 0x2E :: tl'.toks) := by
+      intro l' hl'; simp only [expLayouts, List.mem_cons, List.not_mem_nil, or_false] at hl'
+      rcases hl' with rfl | rfl | rfl | rfl | rfl | rfl
+      · exact ⟨.none, Or.inl tk_t1⟩
+      · exact ⟨.none, Or.inr tk_t2⟩
+      · exact ⟨.z, Or.inl tk_t3⟩
+      · exact ⟨.z, Or.inr tk_t4⟩
+      · exact ⟨.tz, Or.inl tk_t5⟩
+      · exact ⟨.tz, Or.inr tk_t6⟩
+    rcases hl with rfl | rfl | rfl | rfl | rfl | rfl
+    · exact canon_of hls (preOK_C hF) hz (tl := .none) (by simp [expLayouts]) tk_t1
+    · exact absurd hnf (by decide)
+    · exact canon_of hls (preOK_C hF) hz (tl := .z) (by simp [expLayouts]) tk_t3
+    · exact absurd hnf (by decide)
+    · exact canon_of hls (preOK_C hF) hz (tl := .tz) (by simp [expLayouts]) tk_t5
+    · exact absurd hnf (by decide)
+
+/-- Canonicalisation clause for the family. For every T, every s that Map<T> accepts with value v:
+    the literal AsObjectValue writes (`lexTime v`) is in the lexical space of T, Map<T> accepts it, and
+    the value it gives writes the same literal again (canonicalisation is stable).
+    EXCLUDED, and only these: (a) `n.tzWide` — class time-tz-out-of-range, where the written offset is
+    outside XSD's and, for +24:60 ↦ +25:00, is not read back (`dev_tz_out_of_range`); (b) values whose
+    stored Layout has a ".000000000" element — reached only through class time-fraction-signed
+    (`dev_fraction_signed`; their literal "…ss.ddddddddd" is re-read by the plain layout and written
+    without the fraction).
+    NOT excluded: one-digit hours, comma fractions and dropped fractions (class time-fraction-dropped):
+    there the literal is still a stable lexical form, but it denotes a different VALUE than the
+    input — which is why this theorem is `_partial` with respect to the property text ("denoting the
+    same value", "gives an equal value"): equality of values is not claimed, only of lexical forms. -/
+theorem time_canonical_partial (T : TimeTy) (f : TimeFact) (hf : timeFactOK T f = true) (s : Bytes) (v : TVal) (n : Notes)
+    (h : mapTime f s = .ok (v, n)) (hw : n.tzWide = false) (hnf : noFrac v.layout = true) :
+    accepts T.dt (lexTime v) = true ∧
+    ∃ v' n', mapTime f (lexTime v) = .ok (v', n') ∧ lexTime v' = lexTime v := by
+  obtain ⟨l, hl, st, hst, rfl, rfl⟩ := mapTime_inv hf h
+  obtain ⟨hp, hd⟩ := parseWith_inv (by simpa [timeParse] using hst)
+  have hinv := parseToks_inv _ _ _ _ hp inv_init
+  have hF := fields_of_inv hinv hd
+  have hz := zoneOK_of_inv hinv hw
+  obtain ⟨v', n', hfp, hlex, hclean⟩ := canon_core T hl hnf hF hz
+  have hmap : mapTime f (timeFormat l st.t) = .ok (v', n') := mapTime_of_first hf (lexTime_noWs T hl st.t) hfp
+  exact ⟨time_sound_partial T f hf _ v' n' hmap hclean, v', n', hmap, hlex⟩
+
+end
+
+section
+open RdfModel.Proofs.C20Time
+
+/-! ### parse ∘ format -/
+
+/-- the normalisation time.Parse ∘ Format performs on a value: only the fields the layout prints
+    survive (the others return to their defaults: year 0, month/day unset = 1, clock 0, nsec 0, no
+    zone); month and day come back as set; a zone element gives `some offset` (`Z` for offset 0, so "no
+    zone" comes back as UTC); a literal `Z` gives no zone -/
+def setTz (v : PT) : Tok → PT → PT
+  | .tz, s => { s with zone := some (v.zone.getD 0) }
+  | tok, s => setT v tok s
+
+def norm (toks : List Tok) (v : PT) : PT := toks.foldl (fun s tok => setTz v tok s) {}
+
+theorem fp_of {l : Bytes} {pre : List Tok} {tl : Tail} {v : PT} (hlt : layoutToks l = pre ++ tl.toks)
+    (hwf : ∀ rest, TailHead rest → WF v tl.toks rest pre) (hz : ZoneOK false v.zone)
+    (hd : dayOK (foldSt v pre {}).t = true)
+    (hnorm : ∀ w, (tailSt v tl w (foldSt v pre {})).t = norm (pre ++ tl.toks) v) (hn : (foldSt v pre {}).n = {}) :
+    ∃ n', timeParse l (timeFormat l v) = some { t := norm (layoutToks l) v, n := n' } ∧
+      n'.hour1 = false ∧ n'.comma = false ∧ n'.fsign = false ∧ n'.fracDropped = false := by
+  obtain ⟨w, hw, _⟩ := rt_layout v pre tl (hwf _ (tailHead_tail hz tl)) hz hd
+  refine ⟨(tailSt v tl w (foldSt v pre {})).n, ?_, ?_⟩
+  · rw [timeParse, timeFormat, hlt, hw, ← hnorm w]
+  · cases tl <;> simp [tailSt, hn]
+
+/-- parse ∘ format = normalisation, for every layout in use and every value whose fields are in the
+    range time.Parse produces: year ≤ 9999, month 1..12, day valid for month and year (leap rule), hh < 24,
+    mm, ss < 60, nanoseconds < 10⁹, zone none or ±hh:mm with hh ≤ 24, mm ≤ 59 (what Format prints
+    faithfully). The text Format writes is read back by the same layout, the value read is `norm`
+    of the original (see `norm`), and no lax branch is used except possibly a wide zone offset. -/
+theorem time_format_parse (T : TimeTy) (l : Bytes) (hl : l ∈ expLayouts T) (v : PT) (hF : Fields v)
+    (hns : v.nsec < 1000000000) (hz : ZoneOK false v.zone) :
+    ∃ n', timeParse l (timeFormat l v) = some { t := norm (layoutToks l) v, n := n' } ∧
+      n'.hour1 = false ∧ n'.comma = false ∧ n'.fsign = false ∧ n'.fracDropped = false := by
+  cases T <;> simp only [expLayouts, List.mem_cons, List.not_mem_nil, or_false] at hl
+  · rcases hl with rfl | rfl
+    · exact fp_of (tl := .none) tk_d1 (fun r hr => (preOK_D hF).wf _ r hr) hz (preOK_D hF).day (fun _ => rfl) (preOK_D hF).notes
+    · exact fp_of (tl := .tz) tk_d2 (fun r hr => (preOK_D hF).wf _ r hr) hz (preOK_D hF).day (fun _ => rfl) (preOK_D hF).notes
+  · rcases hl with rfl | rfl | rfl | rfl
+    · exact fp_of (tl := .none) tk_dt1 (fun r hr => (preOK_DT hF).wf _ r hr) hz (preOK_DT hF).day (fun _ => rfl) (preOK_DT hF).notes
+    · exact fp_of (tl := .tz) tk_dt2 (fun r hr => (preOK_DT hF).wf _ r hr) hz (preOK_DT hF).day (fun _ => rfl) (preOK_DT hF).notes
+    · exact fp_of (tl := .none) (pre := preDTF) tk_dt3 (fun r _ => wf_DTF hF hns _ r) hz (day_DTF hF) (fun _ => rfl) rfl
+    · exact fp_of (tl := .tz) (pre := preDTF) tk_dt4 (fun r _ => wf_DTF hF hns _ r) hz (day_DTF hF) (fun _ => rfl) rfl
+  · rcases hl with rfl | rfl
+    · exact fp_of (tl := .tz) tk_dt2 (fun r hr => (preOK_DT hF).wf _ r hr) hz (preOK_DT hF).day (fun _ => rfl) (preOK_DT hF).notes
+    · exact fp_of (tl := .tz) (pre := preDTF) tk_dt4 (fun r _ => wf_DTF hF hns _ r) hz (day_DTF hF) (fun _ => rfl) rfl
+  · rcases hl with rfl | rfl
+    · exact fp_of (tl := .none) tk_gd1 (fun r hr => (preOK_GD hF).wf _ r hr) hz (preOK_GD hF).day (fun _ => rfl) (preOK_GD hF).notes
+    · exact fp_of (tl := .tz) tk_gd2 (fun r hr => (preOK_GD hF).wf _ r hr) hz (preOK_GD hF).day (fun _ => rfl) (preOK_GD hF).notes
+  · rcases hl with rfl | rfl
+    · exact fp_of (tl := .none) tk_gm1 (fun r hr => (preOK_GM hF).wf _ r hr) hz (preOK_GM hF).day (fun _ => rfl) (preOK_GM hF).notes
+    · exact fp_of (tl := .tz) tk_gm2 (fun r hr => (preOK_GM hF).wf _ r hr) hz (preOK_GM hF).day (fun _ => rfl) (preOK_GM hF).notes
+  · rcases hl with rfl | rfl
+    · exact fp_of (tl := .none) tk_gmd1 (fun r hr => (preOK_GMD hF).wf _ r hr) hz (preOK_GMD hF).day (fun _ => rfl) (preOK_GMD hF).notes
+    · exact fp_of (tl := .tz) tk_gmd2 (fun r hr => (preOK_GMD hF).wf _ r hr) hz (preOK_GMD hF).day (fun _ => rfl) (preOK_GMD hF).notes
+  · rcases hl with rfl | rfl
+    · exact fp_of (tl := .none) tk_gy1 (fun r hr => (preOK_GY hF).wf _ r hr) hz (preOK_GY hF).day (fun _ => rfl) (preOK_GY hF).notes
+    · exact fp_of (tl := .tz) tk_gy2 (fun r hr => (preOK_GY hF).wf _ r hr) hz (preOK_GY hF).day (fun _ => rfl) (preOK_GY hF).notes
+  · rcases hl with rfl | rfl
+    · exact fp_of (tl := .none) tk_gym1 (fun r hr => (preOK_GYM hF).wf _ r hr) hz (preOK_GYM hF).day (fun _ => rfl) (preOK_GYM hF).notes
+    · exact fp_of (tl := .tz) tk_gym2 (fun r hr => (preOK_GYM hF).wf _ r hr) hz (preOK_GYM hF).day (fun _ => rfl) (preOK_GYM hF).notes
+  · rcases hl with rfl | rfl | rfl | rfl | rfl | rfl
+    · exact fp_of (tl := .none) tk_t1 (fun r hr => (preOK_C hF).wf _ r hr) hz (preOK_C hF).day (fun _ => rfl) (preOK_C hF).notes
+    · exact fp_of (tl := .none) (pre := preCF) tk_t2 (fun r _ => wf_CF hF hns _ r) hz (day_CF v) (fun _ => rfl) rfl
+    · exact fp_of (tl := .z) tk_t3 (fun r hr => (preOK_C hF).wf _ r hr) hz (preOK_C hF).day (fun _ => rfl) (preOK_C hF).notes
+    · exact fp_of (tl := .z) (pre := preCF) tk_t4 (fun r _ => wf_CF hF hns _ r) hz (day_CF v) (fun _ => rfl) rfl
+    · exact fp_of (tl := .tz) tk_t5 (fun r hr => (preOK_C hF).wf _ r hr) hz (preOK_C hF).day (fun _ => rfl) (preOK_C hF).notes
+    · exact fp_of (tl := .tz) (pre := preCF) tk_t6 (fun r _ => wf_CF hF hns _ r) hz (day_CF v) (fun _ => rfl) rfl
+
+-- the hypotheses are satisfiable: a leap day with nanoseconds and a negative half-hour zone
+example : timeParse (asc "2006-01-02T15:04:05.000000000Z07:00")
+    (timeFormat (asc "2006-01-02T15:04:05.000000000Z07:00")
+      { year := 2000, month := some 2, day := some 29, hour := 23, min := 59, sec := 59, nsec := 5, zone := some (-16200) })
+    = some { t := { year := 2000, month := some 2, day := some 29, hour := 23, min := 59, sec := 59, nsec := 5, zone := some (-16200) },
+             n := { tzWide := false } } := by decide
+end
+
+section
+open RdfModel.Proofs.C20Time
+
+/-- Completeness, on the image of Format: for every layout of T without fraction element and every
+    value with in-range fields and a zone within XSD's ±14:00, the text Format writes (the canonical
+    spelling of that value under that layout: four-digit year, two-digit fields, `Z` for offset 0) is
+    mapped by Map<T>, is in the lexical space of T, and the value obtained writes it back unchanged.
+    `_partial` with respect to `time_complete_canonical`: it is NOT shown that every canonical lexical
+    form of the Spec is such a text (surjectivity of Format onto the canonical forms with year
+    0000..9999, no fraction, hour ≠ 24); canonical forms WITH a fraction are mapped but not stably
+    (class time-fraction-dropped) and are outside this theorem. -/
+theorem time_complete_partial (T : TimeTy) (f : TimeFact) (hf : timeFactOK T f = true) (l : Bytes) (hl : l ∈ expLayouts T)
+    (hnf : noFrac l = true) (v : PT) (hF : Fields v) (hz : ZoneOK true v.zone) :
+    ∃ v' n', mapTime f (timeFormat l v) = .ok (v', n') ∧ lexTime v' = timeFormat l v ∧
+      accepts T.dt (timeFormat l v) = true := by
+  obtain ⟨v', n', hfp, hlex, hclean⟩ := canon_core T hl hnf (st := { t := v }) hF hz
+  have hmap : mapTime f (timeFormat l v) = .ok (v', n') := mapTime_of_first hf (lexTime_noWs T hl v) hfp
+  exact ⟨v', n', hmap, hlex, time_sound_partial T f hf _ v' n' hmap hclean⟩
+
+-- non-trivial instance: a leap day in UTC-03:30
+example : Fields { year := 2024, month := some 2, day := some 29 } ∧ ZoneOK true (some (-12600)) := by
+  refine ⟨⟨by decide, by decide, by decide, by decide, by decide, by decide, by decide, by decide⟩, ?_⟩
+  exact Or.inr ⟨3, 30, by decide, by decide, fun _ => by decide, Or.inr (by decide)⟩
+
+end
+
+/-- the exclusion (b) of `time_canonical_partial` is needed: a value with a ".000000000" layout writes a
+    literal that maps to a value writing a different literal -/
+theorem dev_signed_unstable :
+    run .time (asc "12:00:00.+12345678") = some (asc "12:00:00.012345678", { fsign := true }) ∧
+    run .time (asc "12:00:00.012345678") = some (asc "12:00:00", { fracDropped := true }) := by decide
+
 /-! ### not proved -/
 
-/-- Canonicalisation clause of the property for the family: outside the classes `fsign`, `tzWide`,
-    `fracDropped`, the text written back is a lexical form of the datatype, maps again, and gives the
-    same fields and the same text. NOT PROVED here (it needs parse ∘ format = id per layout element);
-    it is checked on the Go code by the oracle of go/cmd/c20t (aspects outlex / idempotent) and holds
-    of the model wherever the model was compared with the code (T3, exact). -/
+/-- Same-value part of the canonicalisation clause: outside the classes, re-mapping gives the same
+    FIELDS (not only the same text). NOT PROVED (needs "fields the layout does not print are at their
+    defaults" as a further invariant of the parse loop); checked on the Go code by the oracle of
+    go/cmd/c20t (aspect idempotent compares the fields) and by T3. -/
 def time_canonical_full : Prop :=
   ∀ (T : TimeTy) (s : Bytes) (v : TVal) (n : Notes), mapTime (Gen.xsdFacts.time T) s = .ok (v, n) →
     n.clean = true → n.fracDropped = false →
     accepts T.dt (lexTime v) = true ∧
     ∃ v' n', mapTime (Gen.xsdFacts.time T) (lexTime v) = .ok (v', n') ∧ v'.t.same v.t = true ∧ lexTime v' = lexTime v
+
+/-- Completeness on canonical forms within the code's year range: every string of the lexical space
+    of T whose year (if any) is written with exactly four digits and no sign, and which is not the
+    end-of-day form 24:00:00, is mapped. NOT PROVED (the converse direction of `time_sound_partial`,
+    per layout); `dev_year_range` and `dev_end_of_day` show the two side conditions are needed. Checked
+    by the oracle of go/cmd/c20 (aspect complete) on the Go code. -/
+def time_complete_canonical : Prop :=
+  ∀ (T : TimeTy) (a : Bytes), lexOK T.dt a = true →
+    (∀ c r, a = c :: r → c ≠ 0x2D ∨ T = .gDay ∨ T = .gMonth ∨ T = .gMonthDay) →
+    (∀ y r, Spec.Xsd.yearFrag a = some (y, r) → y < 10000 ∨ T = .time ∨ T = .gDay ∨ T = .gMonth ∨ T = .gMonthDay) →
+    (∀ p q, a = p ++ asc "24:00:00" ++ q → False) →
+    ∃ v n, mapTime (Gen.xsdFacts.time T) a = .ok (v, n)
 
 end RdfModel.C20Time
